@@ -183,7 +183,7 @@ def gen_cases(tier, seed):
     triples = list(itertools.product(range(5), repeat=3))
     low = [t for t in triples if max(t) <= 2]
     cases = []
-    n = 12 if quick else 80
+    n = 32 if quick else 120
     for d in range(n):
         rng = cg.rng_for(seed, "C05", d)
         bits = 10 if quick else 24
